@@ -31,7 +31,9 @@ let show_view (v : coq_Z view) =
   if List.exists (fun e -> Z.ltb e Z0) s then "trap negative-extent"
   else show_arr s (List.map v.vat (lex_enum s))
 let show_res = function Ok v -> show_view v | Nothing -> "nothing" | Trap -> "trap"
-let show_optv = function Some v -> show_view v | None -> "unspecified"   (* NumPy rejects: outside the quantifier *)
+let show_optv = function Some v -> show_view v | None -> "unspecified"   (* arguments outside the quantifier (axis1 == axis2, axes out of range) *)
+(* operand shapes NumPy rejects (unequal contraction lengths, incompatible batch shapes): the routine must return Nothing *)
+let show_optn = function Some v -> show_view v | None -> "nothing"
 let kind a = getS a
 let nat_list l = List.map (fun z -> nat_of_int (int_of_z z)) l
 let len l = List.length l
@@ -45,22 +47,22 @@ let () =
     let m = if k = "v2" then z_matmul_v2 sa sb fa fb else z_matmul_v1 sa sb fa fb in
     let sp = z_np_matmul sa sb fa fb in
     let valid = (match sp with Some _ -> true | None -> false) in
-    { model = show_res m; spec = show_optv sp;
+    { model = show_res m; spec = show_optn sp;
       dom = posb sa && posb sb && valid && (k = "v2" || (len sa >= 2 && len sb >= 2)) }));
   register "dot" (two (fun _ sa sb fa fb _ ->
     let sp = z_np_dot sa sb fa fb in
-    { model = show_res (z_dot sa sb fa fb); spec = show_optv sp;
+    { model = show_res (z_dot sa sb fa fb); spec = show_optn sp;
       dom = posb sa && posb sb && sp <> None }));
   register "inner" (two (fun _ sa sb fa fb _ ->
     let sp = z_np_inner sa sb fa fb in
-    { model = show_res (z_inner sa sb fa fb); spec = show_optv sp;
+    { model = show_res (z_inner sa sb fa fb); spec = show_optn sp;
       dom = posb sa && posb sb && sp <> None }));
   register "outer" (two (fun _ sa sb fa fb _ ->
     { model = show_res (z_outer sa sb fa fb); spec = show_view (z_np_outer sa sb fa fb);
       dom = posb sa && posb sb }));
   register "vecdot" (two (fun _ sa sb fa fb _ ->
     let sp = z_np_vecdot sa sb fa fb in
-    { model = show_res (z_vecdot sa sb fa fb); spec = show_optv sp;
+    { model = show_res (z_vecdot sa sb fa fb); spec = show_optn sp;
       dom = posb sa && posb sb && sp <> None }));
   register "kron" (two (fun _ sa sb fa fb _ ->
     { model = show_res (z_kron sa sb fa fb); spec = show_view (z_np_kron sa sb fa fb);
@@ -71,7 +73,7 @@ let () =
     if n < 0 || n > la || n > lb then { model = "trap"; spec = "unspecified"; dom = false } else begin
       let axa = List.init n (fun i -> nat_of_int (la - n + i)) and axb = List.init n nat_of_int in
       let sp = z_np_tensordot sa sb fa fb axa axb in
-      { model = show_res (z_tensordot_int sa sb fa fb (nat_of_int n)); spec = show_optv sp;
+      { model = show_res (z_tensordot_int sa sb fa fb (nat_of_int n)); spec = show_optn sp;
         dom = posb sa && posb sb && sp <> None } end));
   register "tdotx" (two (fun _ sa sb fa fb rest ->
     match rest with
@@ -82,7 +84,7 @@ let () =
         let na = norm la axa and nb = norm lb axb in
         let ok = List.for_all (fun v -> v >= 0 && v < la) na && List.for_all (fun v -> v >= 0 && v < lb) nb in
         let sp = if ok then z_np_tensordot sa sb fa fb (List.map nat_of_int na) (List.map nat_of_int nb) else None in
-        { model = show_res (z_tensordot_axes sa sb fa fb axa axb); spec = show_optv sp;
+        { model = show_res (z_tensordot_axes sa sb fa fb axa axb); spec = (if ok then show_optn sp else "unspecified");
           dom = posb sa && posb sb && sp <> None }
     | _ -> failwith "tdotx"));
   (* (off, ax1, ax2) given separately for the model (the header's defaults where omitted) and the spec (NumPy's) *)
@@ -121,7 +123,7 @@ let () =
     if ns < 0 || ns > la || ns > lb || nm > la || nm > lb then { model = "trap"; spec = "unspecified"; dom = false } else begin
       let axa = List.init ns (fun i -> nat_of_int (la - ns + i)) and axb = List.init ns nat_of_int in
       let sp = z_np_tensordot sa sb fa fb axa axb in
-      { model = show_res (z_tensordot_int sa sb fa fb (nat_of_int nm)); spec = show_optv sp;
+      { model = show_res (z_tensordot_int sa sb fa fb (nat_of_int nm)); spec = show_optn sp;
         dom = posb sa && posb sb && sp <> None } end)) in
   tdot_n "tdot_d" (Some default_tensordot_axes) (Some np_default_tensordot_axes);
   tdot_n "tdot_ct" None None;
@@ -178,7 +180,7 @@ let () =
           | _ -> failwith ("typed op " ^ op)) in
         let md = model_dtype rt ta tb and sd = spec_dtype rt ta tb in
         { model = (match m with Ok v -> show_typed_view md den v | Nothing -> "nothing" | Trap -> "trap");
-          spec = (match sp with Some v -> show_typed_view sd den v | None -> "unspecified");
+          spec = (match sp with Some v -> show_typed_view sd den v | None -> "nothing");
           dom = posb sa && posb sb && sp <> None && (op <> "matmul" || (la >= 2 && lb >= 2)) }
     | _ -> failwith "typed");
   register "typed1" (fun a -> match a with
@@ -202,3 +204,36 @@ let () =
           spec = (match sp with Some v -> show_typed_view (spec_dtype rt t t) den v | None -> "unspecified");
           dom = posb s && sp <> None && (if is_trace then e >= 1 else true) }
     | _ -> failwith "typed1")
+
+(* ---------- the dtype ARGUMENT (trace, vecdot): the result element type is the requested one, the sum is accumulated in it ---------- *)
+let () =
+  let tr = (fun a -> match a with
+    | [_; t; d; x; off; a1; a2] ->
+        let t = dtype_of (getS t) and d = dtype_of (getS d) in
+        let (s, dat) = getA x in let f = accessor s dat in
+        let off = getI off and ax1 = getI a1 and ax2 = getI a2 in
+        let n = len s in
+        let nz z = let v = int_of_z z in if v < 0 then v + n else v in
+        let n1 = nz ax1 and n2 = nz ax2 in
+        let ok = n1 >= 0 && n1 < n && n2 >= 0 && n2 < n in
+        let sp = if not ok then None else z_np_trace s f off (nat_of_int n1) (nat_of_int n2) in
+        let m = z_trace s f off ax1 ax2 in
+        let e = if ok then int_of_z (np_diag_len s off (nat_of_int n1) (nat_of_int n2)) else (-1) in
+        let den = scale_of t in
+        { model = (match m with Ok v -> show_typed_view (reduce_dtype (Some d) t) den v | Nothing -> "nothing" | Trap -> "trap");
+          spec = (match sp with Some v -> show_typed_view d den v | None -> "unspecified");   (* numpy.trace(a, .., dtype=d) *)
+          dom = posb s && sp <> None && e >= 1 }
+    | _ -> failwith "trace_dt") in
+  register "trace_dt" tr; register "trace_dtc" tr;
+  register "vecdot_dt" (fun a -> match a with
+    | [_; ta; tb; d; x; y] ->
+        let ta = dtype_of (getS ta) and tb = dtype_of (getS tb) and d = dtype_of (getS d) in
+        let (sa, da) = getA x and (sb, db) = getA y in
+        let fa = accessor sa da and fb = accessor sb db in
+        let den = Z.mul (scale_of ta) (scale_of tb) in
+        let sp = z_np_vecdot sa sb fa fb in
+        { model = (match z_vecdot sa sb fa fb with Ok v -> show_typed_view (reduce_dtype (Some d) (result_dtype None Arith ta tb)) den v
+                   | Nothing -> "nothing" | Trap -> "trap");
+          spec = (match sp with Some v -> show_typed_view d den v | None -> "nothing");
+          dom = posb sa && posb sb && sp <> None }
+    | _ -> failwith "vecdot_dt")
